@@ -263,6 +263,12 @@ func newRec(c config, scen string, seed int64) *rec {
 		opt.ExtraAccts = 1
 		opt.DelegatorAcct = c.validators + 1 // the extra account plays the delegator (stargate) contract
 	}
+	thor.InitialMaxBlockProposers = 101
+	if scen == "capped" {
+		// the parameter says 9, the cap is 6 (production: 101): proposers and the vote threshold both follow the cap
+		opt.MBP = uint64(c.validators) * 3 / 2
+		thor.InitialMaxBlockProposers = uint64(c.validators)
+	}
 	net := sim.NewNet(opt)
 	r := &rec{net: net, ids: trace.NewInterner("b"), blocks: map[thor.Bytes32]*block.Block{}, rng: rand.New(rand.NewSource(seed)),
 		byHt: map[uint32]int{}}
@@ -290,7 +296,7 @@ func newRec(c config, scen string, seed int64) *rec {
 		for i := 0; i < c.validators; i++ {
 			w[fmt.Sprintf("v%d", i)] = 1
 		}
-		thr = uint64(c.validators) * 2 / 3 // MaxBlockProposers = validators
+		thr = uint64(c.validators) * 2 / 3 // MaxBlockProposers = validators ("capped": min(parameter, cap) = validators)
 	}
 	w["none"] = 0
 	r.evs = append(r.evs, trace.Ev{"e": "Reset", "cfg": map[string]any{"E": c.epoch, "thrW": thr, "w": w, "nodes": c.nodes, "fin": c.fin},
@@ -1146,8 +1152,12 @@ func runOne(scen string, seed int64, blocks int) ([]trace.Ev, runStat) {
 		if rng.Intn(2) == 0 {
 			c = config{3, 3, pos, epoch, 0}
 		} else {
-			c = config{6, 6, pos, epoch, 0}
+			c = config{6, 6, pos, 3 + uint32(rng.Intn(2))*3, 0} // E=6: room for the 5 distinct signers that justify; E=3: never
 		}
+	case "capped":
+		// PoA with the on-chain max-block-proposers parameter ABOVE the cap (thor.InitialMaxBlockProposers, scaled down
+		// to the number of validators for this run): the vote threshold is 2/3 of the capped value, like the proposer set
+		c = config{6, 6, false, 6, 0} // an epoch must have room for 5 distinct signers
 	case "posweights":
 		c = config{4, 4, true, 3, 0}
 	case "posforks":
@@ -1188,7 +1198,7 @@ func runOne(scen string, seed int64, blocks int) ([]trace.Ev, runStat) {
 		scenPermute(r, blocks)
 	case "latesibling":
 		scenLateSibling(r, blocks)
-	case "boundary":
+	case "boundary", "capped":
 		scenBoundary(r, blocks)
 	case "posweights":
 		scenPosWeights(r, blocks)
